@@ -590,11 +590,15 @@ func (runInfo *runInfoStruct) invokeLetsExpr(expr *ast.LetsExpr) {
 			runInfo.rv = runInfo.rv.Elem()
 		}
 		if i < len(expr.LHSS) {
+			value := runInfo.rv
 			runInfo.expr = expr.LHSS[i]
 			runInfo.invokeLetExpr()
 			if runInfo.err != nil {
 				return
 			}
+			// the value of an assignment is the value assigned, whatever the store left behind
+			// (a store into a map leaves the key, a member store the container)
+			runInfo.rv = value
 		}
 
 	}
